@@ -38,7 +38,7 @@ pub fn run_scenario_with(scn: &Scenario, hooks: bool, x: &ExploreOpts, mut onlin
     }
     let multi = scn.phases.iter().any(|ph| matches!(ph, Phase::Runs { runs, .. } if runs.len() > 1));
     w.borrow_mut().ev(json!({"ev":"reset","scn":scn.id,"n":scn.n,
-        "reads":pad(&scn.reads, scn.n),"writes":pad(&scn.writes, scn.n),"multi":multi,"tokio":scn.tokio}));
+        "reads":pad(&scn.reads, scn.n),"writes":pad(&scn.writes, scn.n),"multi":multi,"tokio":scn.tokio,"threads":scn.threads,"xdrop":scn.xdrop}));
     let mut enabled = Vec::new();
     if let Some(g) = build_logged(scn, &w) {
         let gp: *mut FnGraph<Node> = Box::into_raw(Box::new(g));
@@ -47,10 +47,30 @@ pub fn run_scenario_with(scn: &Scenario, hooks: bool, x: &ExploreOpts, mut onlin
                 Phase::Eq => phase_eq(scn, unsafe { &*gp }, &w),
                 Phase::Seq { fail_at } => phase_seq(unsafe { &mut *gp }, *fail_at, &w),
                 Phase::GraphInfo => phase_graph_info(unsafe { &*gp }, &w),
+                Phase::Runs { runs, steps } if scn.threads && runs.len() >= 2 => {
+                    let mut log = std::mem::take(&mut w.borrow_mut().log);
+                    let (en, tk, dead) = match online.as_mut() {
+                        Some(choose) => crate::threads::run_threaded(gp, runs, steps, x, Some(&mut **choose), &mut log),
+                        None => crate::threads::run_threaded(gp, runs, steps, x, None, &mut log),
+                    };
+                    w.borrow_mut().log = log;
+                    enabled = en;
+                    taken = tk;
+                    if dead {
+                        return (
+                            RunResult {
+                                trace: std::mem::take(&mut w.borrow_mut().log),
+                                enabled: Vec::new(),
+                            },
+                            taken,
+                        );
+                    }
+                }
                 Phase::Runs { runs, steps } => {
                     let mut ex = Exec::new(w.clone(), gp, runs);
                     ex.tokio = scn.tokio;
                     ex.burn = scn.burn.clone();
+                    ex.xdrop = scn.xdrop;
                     ex.run_steps(steps);
                     taken = steps.clone();
                     enabled = ex.enabled(x);
